@@ -1,7 +1,7 @@
 """C18: sleeping islands are frozen and wake on the documented events (E3: seeded histories of steps and user events)."""
 import nat
 
-RULE = ("one case = one seed = (generated multi-tree scene with the sleep flag on, large sleep tolerance, no actuators, contacts/equalities/"
+RULE = ("one case = one seed = (generated multi-tree scene with the sleep flag on, large sleep tolerance, actuators in 35% of the models (seeded controls), contacts/equalities/"
         "tendons/mocap, or a repo sleep test model) x (history of 6-30 events: blocks of 5-60 steps, user writes of qpos / qvel (incl. -0.0) / "
         "qfrc_applied / xfrc_applied mostly on sleeping trees, zeroing forces, mocap moves onto a tree, equality toggles, mj_forward); after "
         "every step: closed sleep cycles, frozen qpos and zero qvel of trees that stayed asleep, whole former island awake after a user event, "
